@@ -3,7 +3,7 @@ check; only obligations tagged with the property id are reported by it."""
 
 PROPS = {
     'C04': {
-        'verus': ['program_lines', 'program_state'],
+        'verus': ['program_lines', 'program_state', 'interp_api'],
         'kani': [],
         'level': 'proof',
         'design_ref': 'DESIGN.md §5 U1, §6 C04',
@@ -40,7 +40,7 @@ PROPS = {
     },
     'C06': {
         'verus': ['analyzer_kinds', 'program_state'],
-        'kani': ['operators'],
+        'kani': ['operators', 'expr_agreement'],
         'level': 'proof',
         'design_ref': 'DESIGN.md §5 U7/K2, §6 C06',
     },
@@ -75,7 +75,7 @@ PROPS = {
         'design_ref': 'DESIGN.md §6 C10',
     },
     'C11': {
-        'verus': ['program_lines', 'program_state'],
+        'verus': ['program_lines', 'program_state', 'interp_api'],
         'kani': [],
         'level': 'proof',
         'design_ref': 'DESIGN.md §6 C11',
